@@ -70,6 +70,42 @@ pub fn gen_table(r: &mut R, max_rows: usize, max_cols: usize, classes: u64, nest
     Table { cols, rows, thead: r.p(25) }
 }
 
+/// a table with one or more columns that are empty in every row, and short tokens elsewhere
+pub fn gen_sparse_table(r: &mut R) -> Table {
+    let cols = 2 + r.u(6);
+    let nrows = 1 + r.u(2);
+    let mut empty: Vec<bool> = (0..cols).map(|_| r.p(45)).collect();
+    if empty.iter().all(|e| *e) {
+        empty[0] = false;
+    }
+    if !empty.iter().any(|e| *e) {
+        let k = r.u(cols);
+        empty[k] = true;
+        if empty.iter().all(|e| *e) {
+            empty[(k + 1) % cols] = false;
+        }
+    }
+    let mut n = 0;
+    let rows = (0..nrows)
+        .map(|_| {
+            (0..cols)
+                .map(|c| {
+                    if empty[c] {
+                        TCell { span: 1, token: String::new(), html: String::new(), nested: false }
+                    } else {
+                        let mut tok = crate::gen::token_name(n);
+                        n += 1;
+                        tok.truncate(1 + r.u(2));
+                        tok.push('y');
+                        TCell { span: 1, token: tok.clone(), html: tok, nested: false }
+                    }
+                })
+                .collect()
+        })
+        .collect();
+    Table { cols, rows, thead: false }
+}
+
 impl Table {
     pub fn html(&self) -> String {
         let mut s = String::from("<table>");
